@@ -1,13 +1,13 @@
 SPECIFICATION Spec
 VIEW View
 CONSTANTS
-  Names = {"a", "b", "name"}
-  IntVals <- IV_small
-  Specials = {"none", "ref", "zz", "floatfrac", "mem"}
+  Names = {"a", "b", "c", "name"}
+  IntVals <- IV_thorough
+  Specials = {"none", "ref", "zz", "numstr", "floatint", "floatfrac", "bool", "list", "mem"}
   DispNames = {"", "x"}
   MaxPieces = 2
   MaxExt = 1
-  MaxDepth = 2
+  MaxDepth = 3
   AsImpl = {}
 INVARIANT TypeOK
 INVARIANT IsBijection
